@@ -414,6 +414,47 @@ fn run(args: &Args, rep: &mut Report) {
         }
         Err(m) => acc.fail("colour-laws", json!({}), m),
     }
+    // every (earlier value, later value) pair per colour slot: the getter returns the later one
+    let colour_values: Vec<Option<Color>> = std::iter::once(None)
+        .chain(ANSI_COLORS.iter().map(|c| Some(Color::Ansi(*c))))
+        .chain((0..=255u8).map(|i| Some(Color::Ansi256(Ansi256Color(i)))))
+        .chain([(0u8, 0u8, 0u8), (255, 255, 255), (128, 0, 0), (1, 2, 3)].into_iter().map(|(r, g, b)| Some(Color::Rgb(RgbColor(r, g, b)))))
+        .collect();
+    let accs_pairs = rt::par(3, |slot| {
+        let mut acc = Acc::new();
+        for old in &colour_values {
+            for new in &colour_values {
+                acc.eval();
+                acc.nontrivial_distinct();
+                let base = Style::new().bold().fg_color(Some(Color::Ansi(AnsiColor::Green))).bg_color(Some(Color::Ansi256(Ansi256Color(7)))).underline_color(Some(Color::Rgb(RgbColor(9, 9, 9))));
+                let (st, got) = match slot {
+                    0 => {
+                        let s = base.fg_color(*old).fg_color(*new);
+                        (s, s.get_fg_color())
+                    }
+                    1 => {
+                        let s = base.bg_color(*old).bg_color(*new);
+                        (s, s.get_bg_color())
+                    }
+                    _ => {
+                        let s = base.underline_color(*old).underline_color(*new);
+                        (s, s.get_underline_color())
+                    }
+                };
+                let others_ok = st.get_effects() == Effects::BOLD
+                    && (slot == 0 || st.get_fg_color() == Some(Color::Ansi(AnsiColor::Green)))
+                    && (slot == 1 || st.get_bg_color() == Some(Color::Ansi256(Ansi256Color(7))))
+                    && (slot == 2 || st.get_underline_color() == Some(Color::Rgb(RgbColor(9, 9, 9))));
+                if got != *new || !others_ok {
+                    acc.fail("setter-pairs", json!({"slot": slot, "old": format!("{:?}", old), "new": format!("{:?}", new)}), format!("slot {} set to {:?} and then to {:?}: the getter returns {:?} (other fields intact: {others_ok})", ["fg", "bg", "underline"][slot], old, new, got));
+                    return acc;
+                }
+            }
+        }
+        acc.samples.push(json!({"slot": (["fg", "bg", "underline"][slot]), "old": "Ansi(Red)", "new": "Ansi256(1)"}));
+        acc
+    });
+    rep.add("setter-pairs", true, "per colour slot every (earlier value, later value) pair over {None, 16 palette colours, 256 indices, 4 RGB values}: the getter returns the later value, the other fields stay", accs_pairs);
     rep.add("colour-laws", true, "all 16 palette colours, all 256 indices", vec![acc]);
 
     rep.add(
